@@ -9,7 +9,8 @@ FAULTS = {
                   "scale(1e400)", "matrix(1,0,0,1,0,0,7)", "translateX(a)", "rotate(10,5)", ")("],
     "d": ["M 0 0 L", "M0,0 A 1", "L", "garbage", "M 1e400,0", "M0 0 1", "z", "M 0 0 h", "m 1 1 a 1 1 0 0", "M0,0 L 1,1 Q", "M0,0 L5,5 X 3",
           "M0,0 L10,10 L5 z", "M0,0 H z", "M z", "M20,20 L30,20 L30,30 L", "M1,1 C 1,2 3,4 z", "M 5,5 T"],
-    "fill": ["notacolor", "rgb(1,2", "#12", "url(#x)", "hsl(a,b,c)", "rgb(1e400,0,0)", "rgb(300,-5,0)", "", "#gggggg", "rgb(10%,20%)"],
+    "fill": ["notacolor", "rgb(1,2", "#12", "url(#x)", "hsl(a,b,c)", "rgb(1e400,0,0)", "rgb(300,-5,0)", "", "#gggggg", "rgb(10%,20%)",
+             "rgb(1e999%,0%,0%)", "hsl(1e400,50%,50%)", "hsl(10,1e400%,50%)", "rgba(1,2,3,1e400)", "rgb(1e400%,1e400%,1e400%,1e400)"],
     "stroke": ["nope", "rgb(", "#1", "rgb(1e999,1e999,1e999)"],
     "width": ["abc", "--5", "", "10 px", "50%%", "-5", "0", "1e400"],
     "height": ["abc", "", "0", "-3"],
